@@ -1,3 +1,382 @@
 package c16
 
-func registerMatchers() {}
+import (
+	"math"
+	"regexp"
+	"strconv"
+	"strings"
+
+	rb "verif/internal/refbridge"
+	"verif/internal/run"
+)
+
+func inputOf(f *run.Failure) (Input, bool) {
+	in, ok := f.In.(Input)
+	return in, ok
+}
+
+var stepRe = regexp.MustCompile(`(?:after step |\[step )(\d+)`)
+
+// failingOp returns the history step a failure text refers to.
+func failingOp(f *run.Failure, in Input) (Op, bool) {
+	if in.Hist == nil {
+		return Op{}, false
+	}
+	m := stepRe.FindStringSubmatch(f.Actual)
+	if m == nil {
+		return Op{}, false
+	}
+	n, _ := strconv.Atoi(m[1])
+	if n < 0 || n >= len(in.Hist.Ops) {
+		return Op{}, false
+	}
+	return in.Hist.Ops[n], true
+}
+
+func elemType(in Input, op Op) string {
+	t := in.Hist.C.T
+	if t == "S1" {
+		return s1FieldType[op.Key]
+	}
+	return rb.ElemExpr(t)
+}
+
+// numOfPrim is ToNumber for primitives; objects count as NaN-ish "unknown".
+func numOfPrim(v rb.JV) (float64, bool) { return v.ToNumber() }
+
+// anyJV reports whether pred holds for v or any nested element.
+func anyJV(v rb.JV, pred func(rb.JV) bool) bool {
+	if pred(v) {
+		return true
+	}
+	for _, e := range v.E {
+		if anyJV(e, pred) {
+			return true
+		}
+	}
+	return false
+}
+
+func inputJVs(in Input) []rb.JV {
+	var out []rb.JV
+	switch {
+	case in.Arg != nil:
+		out = append(out, in.Arg.Args...)
+	case in.CB != nil && in.CB.Ret != nil:
+		out = append(out, *in.CB.Ret)
+	case in.Hist != nil:
+		for _, op := range in.Hist.Ops {
+			if op.V != nil {
+				out = append(out, *op.V)
+			}
+		}
+	}
+	return out
+}
+
+func isStorePath(site string) bool {
+	switch site {
+	case "hist:slice:jsset", "hist:slice:jspush", "hist:array:jsset", "hist:map:jsset":
+		return true
+	}
+	return false
+}
+
+func registerMatchers() {
+	// toReflectValue rejects fractions with `frac > 0`: a negative fraction passes
+	// and is truncated toward zero by the integer conversion that follows.
+	run.RegisterMatcher("c16.storeNegativeFraction", func(f *run.Failure) bool {
+		in, ok := inputOf(f)
+		op, ok2 := failingOp(f, in)
+		if !ok || !ok2 || !isStorePath(f.Site) || !strings.HasPrefix(f.Actual, "silent (") || op.V == nil {
+			return false
+		}
+		n, prim := numOfPrim(*op.V)
+		et := elemType(in, op)
+		if !prim || !rb.IsIntType(et) || !(n < 0) || n == math.Trunc(n) || math.IsInf(n, 0) {
+			return false
+		}
+		// what the defect stores: the truncated value (when it fits)
+		return strings.Contains(f.Actual, "n:"+rb.FloatValueLabel(math.Trunc(n))) || math.Trunc(n) == 0
+	})
+	// the fraction test only looks at float-typed values: a numeric string with a
+	// fraction ("1.5") reaches toIntegerFloat and is truncated.
+	run.RegisterMatcher("c16.storeStringFraction", func(f *run.Failure) bool {
+		in, ok := inputOf(f)
+		op, ok2 := failingOp(f, in)
+		if !ok || !ok2 || !isStorePath(f.Site) || !strings.HasPrefix(f.Actual, "silent (") || op.V == nil || op.V.K != "str" {
+			return false
+		}
+		n := rb.StringToNumber(op.V.S)
+		if !rb.IsIntType(elemType(in, op)) || n != n || math.IsInf(n, 0) || n == math.Trunc(n) {
+			return false
+		}
+		return strings.Contains(f.Actual, "n:"+rb.FloatValueLabel(math.Trunc(n)+0))
+	})
+	// toIntegerFloat maps NaN to 0: undefined, non-numeric strings, objects and
+	// NaN itself are stored as 0 in integer-typed elements.
+	run.RegisterMatcher("c16.storeNaNAsZero", func(f *run.Failure) bool {
+		in, ok := inputOf(f)
+		op, ok2 := failingOp(f, in)
+		if !ok || !ok2 || !isStorePath(f.Site) || !strings.HasPrefix(f.Actual, "silent (NaN denotes no ") || op.V == nil {
+			return false
+		}
+		return rb.IsIntType(elemType(in, op))
+	})
+	// the range checks of the 64-bit cases compare with `>` against float64(MaxInt64)
+	// = 2^63 (resp. 2^64): exactly 2^63 / 2^64 passes and the Go conversion wraps.
+	run.RegisterMatcher("c16.storeWrapAtLimit", func(f *run.Failure) bool {
+		in, ok := inputOf(f)
+		op, ok2 := failingOp(f, in)
+		if !ok || !ok2 || !isStorePath(f.Site) || !strings.HasPrefix(f.Actual, "silent (") || op.V == nil {
+			return false
+		}
+		n, prim := numOfPrim(*op.V)
+		if !prim {
+			return false
+		}
+		switch elemType(in, op) {
+		case "int", "int64":
+			return n == 9223372036854775808.0
+		case "uint", "uint64":
+			return n == 18446744073709551616.0
+		}
+		return false
+	})
+	// goSliceObject.setValue / goArrayObject.setValue / goMapObject.toValue panic
+	// with the plain Go error returned by toReflectValue; tryCatchEvaluate cannot
+	// turn it into a JS value (its own conversion panics) and catchPanic re-panics
+	// plain errors: the script cannot catch it, and without try/catch the Go
+	// panic escapes Run.
+	run.RegisterMatcher("c16.storePlainErrorPanic", func(f *run.Failure) bool {
+		in, ok := inputOf(f)
+		op, ok2 := failingOp(f, in)
+		if !ok || !ok2 || !isStorePath(f.Site) || op.V == nil {
+			return false
+		}
+		// (a refusal of a value that denotes an element is a different defect:
+		// its text starts with "refused although ..." and is not matched here)
+		return strings.HasPrefix(f.Actual, "uncatchable:") && strings.Contains(f.Actual, "missing runtime: {RangeError: ") && strings.Contains(f.Actual, "(errors.errorString)")
+	})
+	// the float32 case of toReflectValue refuses every magnitude above MaxFloat32,
+	// also +-Infinity, which is a float32 (today the refusal additionally takes
+	// the uncatchable plain-error path).
+	run.RegisterMatcher("c16.storeFloat32InfinityRefused", func(f *run.Failure) bool {
+		in, ok := inputOf(f)
+		op, ok2 := failingOp(f, in)
+		if !ok || !ok2 || !isStorePath(f.Site) || op.V == nil || op.V.K != "num" || !math.IsInf(op.V.Num(), 0) {
+			return false
+		}
+		if !rb.IsFloat32Type(elemType(in, op)) {
+			return false
+		}
+		return strings.HasPrefix(f.Actual, "refused although the value denotes a float32: uncatchable:") || strings.HasPrefix(f.Actual, "spurious RangeError")
+	})
+	// goMapObject.toKey panics with the strconv error for a property name that is
+	// not a valid key of a non-string-keyed map (write and delete paths; the read
+	// path ignores the error).
+	run.RegisterMatcher("c16.mapKeyPlainErrorPanic", func(f *run.Failure) bool {
+		in, ok := inputOf(f)
+		op, ok2 := failingOp(f, in)
+		if !ok || !ok2 || (f.Site != "hist:map:jsset" && f.Site != "hist:map:jsdel") {
+			return false
+		}
+		if rb.KeyExpr(in.Hist.C.T) == "string" {
+			return false
+		}
+		if _, err := strconv.ParseInt(op.Key, 0, 64); err == nil {
+			return false
+		}
+		return strings.HasPrefix(f.Actual, "uncatchable:") && strings.Contains(f.Actual, "(strconv.NumError)")
+	})
+	// null / undefined stored into an interface{}-typed element: toReflectValue
+	// returns reflect.ValueOf(nil) (invalid). Slices: reflect.Value.Set panics with
+	// *reflect.ValueError (uncatchable / escaping panic). Maps: SetMapIndex with an
+	// invalid value deletes the key instead of storing nil.
+	run.RegisterMatcher("c16.storeNullIntoInterface", func(f *run.Failure) bool {
+		in, ok := inputOf(f)
+		op, ok2 := failingOp(f, in)
+		if !ok || !ok2 || !isStorePath(f.Site) || op.V == nil || elemType(in, op) != "any" {
+			return false
+		}
+		if op.V.K != "null" && op.V.K != "undef" {
+			return false
+		}
+		return strings.Contains(f.Actual, "uncatchable:") && strings.Contains(f.Actual, "(reflect.ValueError)") ||
+			strings.HasPrefix(f.Actual, "lost: key absent")
+	})
+	// a slice set by value is not addressable: every path that shrinks it
+	// (length write, pop, shift, splice) calls reflect.Value.SetLen, whose panic
+	// text is thrown to the script as a plain string.
+	run.RegisterMatcher("c16.sliceShrinkRawPanic", func(f *run.Failure) bool {
+		in, ok := inputOf(f)
+		if !ok || in.Hist == nil || (f.Site != "hist:slice:jspop" && f.Site != "hist:slice:jssetlen") {
+			return false
+		}
+		return strings.HasPrefix(f.Actual, "throws nonerror:string:reflect: reflect.Value.SetLen using unaddressable value")
+	})
+	// a struct set by value: goStructCanPut says yes, then reflect.Value.Set panics
+	// and the panic text is thrown as a plain string.
+	run.RegisterMatcher("c16.structValueWriteRawPanic", func(f *run.Failure) bool {
+		in, ok := inputOf(f)
+		op, ok2 := failingOp(f, in)
+		if !ok || !ok2 || f.Site != "hist:struct:jsset" || in.Hist.Pass != "value" {
+			return false
+		}
+		idx, _, _ := structField(s1Type, op.Key)
+		return idx != nil && strings.HasPrefix(f.Actual, "throws nonerror:string:reflect: reflect.Value.Set using unaddressable value")
+	})
+	// writing to a nil Go map: reflect's "assignment to entry in nil map" panic text
+	// is thrown as a plain string.
+	run.RegisterMatcher("c16.nilMapWriteRawPanic", func(f *run.Failure) bool {
+		in, ok := inputOf(f)
+		if !ok || in.Hist == nil || f.Site != "hist:map:jsset" {
+			return false
+		}
+		return strings.HasPrefix(f.Actual, "throws nonerror:string:assignment to entry in nil map")
+	})
+	// a parameter of a named string type receives a plain string reflect.Value:
+	// reflect.Call panics and the text is thrown as a plain string.
+	run.RegisterMatcher("c16.namedStringParamRawPanic", func(f *run.Failure) bool {
+		in, ok := inputOf(f)
+		if !ok || in.Arg == nil || !strings.HasPrefix(f.Site, "call:") {
+			return false
+		}
+		has := false
+		for _, p := range in.Arg.Params {
+			if p == "MyStr" {
+				has = true
+			}
+		}
+		return has && (strings.HasPrefix(f.Actual, "throws nonerror:string:reflect: Call using string as type refbridge.MyStr") ||
+			strings.HasPrefix(f.Actual, "throws nonerror:string:reflect: CallSlice using string as type refbridge.MyStr"))
+	})
+	// goSliceGetOwnProperty / goArrayGetOwnProperty return a property (value
+	// undefined) for every array index, so `i in c` is true beyond the length.
+	run.RegisterMatcher("c16.inBeyondLength", func(f *run.Failure) bool {
+		in, ok := inputOf(f)
+		if !ok || in.Hist == nil || (f.Site != "hist:slice:jsin" && f.Site != "hist:array:jsin") {
+			return false
+		}
+		return strings.HasSuffix(f.Expected, "is false for length "+lastWord(f.Expected)) && strings.HasPrefix(f.Actual, "b:true")
+	})
+	// json:"-" field: fieldIndexByName skips it (so writes fall through to an
+	// expando property) but getValue finds it by FieldByName (so reads show the Go
+	// value and the expando is shadowed); enumeration then lists the name twice.
+	run.RegisterMatcher("c16.dashFieldListedTwice", func(f *run.Failure) bool {
+		in, ok := inputOf(f)
+		if !ok || in.Hist == nil || f.Site != "hist:struct:jskeys" {
+			return false
+		}
+		wrote := false
+		for _, op := range in.Hist.Ops {
+			if op.K == "jsset" && op.Key == "H" {
+				wrote = true
+			}
+		}
+		return wrote && strings.HasPrefix(f.Actual, `"H" listed 2 times`)
+	})
+	// convertCallParameter builds a slice of the right length but only copies own
+	// data properties of real Arrays: array-likes, holes and accessor elements
+	// arrive as zero values.
+	run.RegisterMatcher("c16.arrayLikeZeroFilled", func(f *run.Failure) bool {
+		in, ok := inputOf(f)
+		if !ok || !strings.Contains(f.Actual, "array-like zero-filled") {
+			return false
+		}
+		vs := inputJVs(in)
+		if op, ok2 := failingOp(f, in); ok2 {
+			if op.V == nil {
+				return false
+			}
+			vs = []rb.JV{*op.V}
+		}
+		for _, v := range vs {
+			if anyJV(v, notPlainArray) {
+				return true
+			}
+		}
+		return false
+	})
+	// convertNumeric converts a float64 through int64: integral values in
+	// [2^63, 2^64) are refused for uint / uint64 targets ("loss of precision").
+	run.RegisterMatcher("c16.uint64AboveInt64Refused", func(f *run.Failure) bool {
+		in, ok := inputOf(f)
+		if !ok || !strings.HasPrefix(f.Actual, "spurious RangeError") {
+			return false
+		}
+		big := func(v rb.JV) bool {
+			if v.K != "num" {
+				return false
+			}
+			n := v.Num()
+			return n >= 9223372036854775808.0 && n < 18446744073709551616.0
+		}
+		hasU := false
+		var types []string
+		switch {
+		case in.Arg != nil:
+			types = in.Arg.Params
+		case in.CB != nil:
+			types = []string{in.CB.Out}
+		case in.Hist != nil:
+			if op, ok2 := failingOp(f, in); ok2 {
+				types = []string{elemType(in, op)}
+				if op.V == nil || !anyJV(*op.V, big) {
+					return false
+				}
+			}
+		}
+		for _, t := range types {
+			if strings.Contains(t, "uint64") || t == "uint" || strings.HasSuffix(t, "]uint") || strings.HasSuffix(t, "S1") {
+				hasU = true
+			}
+		}
+		if !hasU {
+			return false
+		}
+		for _, v := range inputJVs(in) {
+			if anyJV(v, big) {
+				return true
+			}
+		}
+		return false
+	})
+	// the reflect.MakeFunc wrapper for func-typed parameters re-panics the *Error
+	// returned by Value.Call; tryCatchEvaluate does not know *Error and its
+	// fallback conversion panics: exceptions thrown inside a callback cannot be
+	// caught by the script that called the Go function.
+	run.RegisterMatcher("c16.callbackExceptionUncatchable", func(f *run.Failure) bool {
+		in, ok := inputOf(f)
+		if !ok || in.CB == nil || f.Site != "callback:throw" || !strings.HasPrefix(in.CB.Body, "throw:") {
+			return false
+		}
+		return strings.HasPrefix(f.Actual, "uncatchable:") && strings.Contains(f.Actual, "invalid value (struct): missing runtime:") &&
+			(strings.Contains(f.Actual, "(otto.Error)") || strings.Contains(f.Actual, "{cb} (errors.errorString)"))
+	})
+	// goSliceObject.setLength uses Value.ToInteger: a fractional length is
+	// truncated (c.length = 1.5 sets 1) instead of being refused.
+	run.RegisterMatcher("c16.lengthTruncated", func(f *run.Failure) bool {
+		in, ok := inputOf(f)
+		op, ok2 := failingOp(f, in)
+		if !ok2 {
+			// the length-write failure text carries no step; find the op by site
+			if !ok || in.Hist == nil || f.Site != "hist:slice:jssetlen" {
+				return false
+			}
+			for _, o := range in.Hist.Ops {
+				if o.K == "jssetlen" && o.V != nil && o.V.Num() != math.Trunc(o.V.Num()) && strings.HasPrefix(f.Actual, strconv.Itoa(int(math.Trunc(o.V.Num())))+` thrown=""`) {
+					return true
+				}
+			}
+			return false
+		}
+		_ = op
+		return false
+	})
+}
+
+func lastWord(s string) string {
+	i := strings.LastIndexByte(s, ' ')
+	return s[i+1:]
+}
